@@ -62,7 +62,7 @@ M = [
  ("C13", "quota-never-fails", "server/client.go", "\tif client.serverReceiveMaximumQuota == 0 {\n\t\treturn codes.NewError(codes.RecvMaxExceeded)\n\t}", "\tif false {\n\t\treturn codes.NewError(codes.RecvMaxExceeded)\n\t}"),
  ("C13", "quota-not-restored-on-puback", "server/client.go", "\t\t\tcase *packets.Puback, *packets.Pubcomp:\n\t\t\t\tif client.version == packets.Version5 {\n\t\t\t\t\tclient.addServerQuota()\n\t\t\t\t}", "\t\t\tcase *packets.Pubcomp:\n\t\t\t\tif client.version == packets.Version5 {\n\t\t\t\t\tclient.addServerQuota()\n\t\t\t\t}"),
  ("C14", "wrappers-left-to-right", "server/server.go", "\t\tfor i := len(onSubscribeWrappers); i > 0; i-- {\n\t\t\tonSubscribe = onSubscribeWrappers[i-1](onSubscribe)\n\t\t}", "\t\tfor i := 0; i < len(onSubscribeWrappers); i++ {\n\t\t\tonSubscribe = onSubscribeWrappers[i](onSubscribe)\n\t\t}"),
- ("C14", "suback-from-request", "server/client.go", "\t\tcode := sub.QoS\n\t\tif client.version == packets.Version5 {\n\t\t\tif sub.ShareName != \"\" {", "\t\tcode := v.Qos\n\t\tif client.version == packets.Version5 {\n\t\t\tif sub.ShareName != \"\" {"),
+ ("C14", "suback-from-request", "server/client.go", "\t\tcode := sub.QoS\n\t\tif client.version == packets.Version5 {", "\t\tcode := v.Qos\n\t\tif client.version == packets.Version5 {"),
  ("C14", "msg-instead-of-req-message", "server/client.go", "\t\t\terr = srv.hooks.OnMsgArrived(context.Background(), client, req)\n\t\t\tmsg = req.Message", "\t\t\terr = srv.hooks.OnMsgArrived(context.Background(), client, req)"),
  ("C15", "publishservice-without-lock", "server/publish_service.go", "\tp.server.mu.Lock()\n\tp.server.deliverMessage(\"\", message, defaultIterateOptions(message.Topic))\n\tp.server.mu.Unlock()", "\tp.server.deliverMessage(\"\", message, defaultIterateOptions(message.Topic))"),
  ("C15", "stats-map-without-lock", "server/stats.go", "func (s *statsManager) packetReceived(packet packets.Packet, clientID string) {\n\ts.totalStats.PacketStats.add(packet, true)\n\ts.clientMu.Lock()\n\tdefer s.clientMu.Unlock()", "func (s *statsManager) packetReceived(packet packets.Packet, clientID string) {\n\ts.totalStats.PacketStats.add(packet, true)"),
@@ -71,7 +71,10 @@ M = [
  ("C18", "write-text-frames", "server/server.go", "\terr = ws.c.WriteMessage(websocket.BinaryMessage, p)", "\terr = ws.c.WriteMessage(websocket.TextMessage, p)"),
  ("C18", "text-frames-accepted", "server/server.go", "\t\tif msgType != websocket.BinaryMessage {\n\t\t\treturn 0, ErrInvalWsMsgType\n\t\t}", "\t\t_ = msgType"),
  ("C19", "unknown-user-accepted", "plugin/auth/auth.go", None, None),
- ("C20", "packet-sent-before-write", "server/client.go", "\t\t\terr = client.writePacket(packet)\n\t\t\tif err != nil {\n\t\t\t\treturn\n\t\t\t}\n\t\t\tsrv.statsManager.packetSent(packet, client.opts.ClientID)", "\t\t\tsrv.statsManager.packetSent(packet, client.opts.ClientID)\n\t\t\tsrv.statsManager.packetSent(packet, client.opts.ClientID)\n\t\t\terr = client.writePacket(packet)\n\t\t\tif err != nil {\n\t\t\t\treturn\n\t\t\t}"),
+ ("C20", "packet-sent-before-write", "server/client.go", "\t\t\t\thandshake = nil\n\t\t\t\tsrv.statsManager.packetSent(packet, client.opts.ClientID)", "\t\t\t\thandshake = nil\n\t\t\t\tsrv.statsManager.packetSent(packet, client.opts.ClientID)\n\t\t\t\tsrv.statsManager.packetSent(packet, client.opts.ClientID)"),
+ ("C20", "handshake-auth-booked-at-once", "server/client.go", "\t\t\tif _, ok := packet.(*packets.Auth); ok && !client.IsConnected() {", "\t\t\tif _, ok := packet.(*packets.Auth); ok && false {"),
+ ("C10", "redis-drop-keeps-read-cache", "persistence/queue/redis/redis.go", "\t\t\t\tdelete(q.readCache, dropElem.ID())\n", ""),
+ ("C07", "v3-shared-subscribe-replays", "server/client.go", "\t\tisShared := sub.ShareName != \"\"\n", "\t\tisShared := sub.ShareName != \"\" && client.version == packets.Version5\n"),
  ("C20", "session-inactive-not-called", "server/stats.go", "\tatomic.AddUint64(&s.totalStats.ConnectionStats.DisconnectedTotal, 1)\n\ts.sessionInActive()", "\tatomic.AddUint64(&s.totalStats.ConnectionStats.DisconnectedTotal, 1)"),
  ("C20", "qos0-read-not-decremented", "persistence/queue/mem/mem.go", "\t\tif pub.QoS == 0 {\n\t\t\tq.current = q.current.Next()\n\t\t\tq.l.Remove(v)\n\t\t\tmsgQueueDelta--", "\t\tif pub.QoS == 0 {\n\t\t\tq.current = q.current.Next()\n\t\t\tq.l.Remove(v)"),
  ("C16", "duplicate-suppression-removed", "plugin/federation/federation.go", "\tif sess.seenEvents.set(eventID) {", "\tif sess.seenEvents.set(eventID) && false {"),
